@@ -37,7 +37,7 @@ func (v *verifier) dispatchObligations() ([]*Obligation, []string) {
 		name := fmt.Sprintf("dispatch[%s]", t.ntNames[k])
 		if hc == nil {
 			out = append(out, &Obligation{Name: "exec.execContext/" + name, Fn: "exec.execContext", Kind: "dispatch", Goal: "false",
-				Src: fmt.Sprintf("handler %s registered for %s has no contract", hkey, t.ntNames[k]), Props: g.Props, tr: emptyTrans(v)})
+				Src: fmt.Sprintf("handler %s registered for %s has no contract", hkey, t.ntNames[k]), Props: []string{"C08"}, tr: emptyTrans(v)})
 			continue
 		}
 		for pass := 0; pass < 2; pass++ {
@@ -127,6 +127,7 @@ func (v *verifier) dispatchObligations() ([]*Obligation, []string) {
 		}
 		// rename the pre-obligations so that they are attributed to the dispatch entry
 		for _, o := range out0.obls {
+			o.Props = append(append([]string{}, hc.Props...), "C08")
 			if !strings.Contains(o.Name, "dispatch[") {
 				o.Name = "exec.execContext/" + name + "." + strings.TrimPrefix(o.Name, "exec.execContext/")
 			}
@@ -190,7 +191,7 @@ func (v *verifier) dispatchObligations() ([]*Obligation, []string) {
 			goal = "false"
 		}
 		out = append(out, &Obligation{Name: fmt.Sprintf("exec.execContext/transparent[%s]", t.ntNames[k]), Fn: "exec.execContext", Kind: "dispatch", Goal: goal,
-			Src: "a nonterminal without a registered handler must be a chain production (at most one nonterminal child per alternate). " + why, Props: g.Props, tr: emptyTrans(v)})
+			Src: "a nonterminal without a registered handler must be a chain production (at most one nonterminal child per alternate). " + why, Props: []string{"C08", "C01", "C02"}, tr: emptyTrans(v)})
 	}
 	return out, errs
 }
